@@ -38,15 +38,20 @@ def load():
 def build_var(P, spec):
     k, name, attrs = spec["kind"], spec["name"], copy.deepcopy(spec["attrs"])
     if k == "b":
-        return P.BaseType(name, np.arange(2, dtype="i4"), attributes=attrs)
+        shape = tuple(spec.get("shape", (2,)))
+        return P.BaseType(name, np.zeros(shape, dtype="i4"), dims=tuple(spec.get("dims", ())), attributes=attrs)
     if k == "g":
+        # the Grid holds its members in the order of spec["children"]: the array first, then the maps in THAT order,
+        # whatever the array's dimensions are called (older specs: dims = the map names in order, extents 2)
         g = P.GridType(name, attributes=attrs)
         ms = spec["children"]
-        g[ms[0]["name"]] = P.BaseType(ms[0]["name"], np.arange(2 ** (len(ms) - 1), dtype="i4").reshape((2,) * (len(ms) - 1)),
-                                      dimensions=tuple(m["name"] for m in ms[1:]),
+        dims = tuple(ms[0].get("dims", tuple(m["name"] for m in ms[1:])))
+        shape = tuple(ms[0].get("shape", (2,) * len(dims)))
+        g[ms[0]["name"]] = P.BaseType(ms[0]["name"], np.zeros(shape, dtype="i4"), dims=dims,
                                       attributes=copy.deepcopy(ms[0]["attrs"]))
         for m in ms[1:]:
-            g[m["name"]] = P.BaseType(m["name"], np.arange(2, dtype="i4"), attributes=copy.deepcopy(m["attrs"]))
+            g[m["name"]] = P.BaseType(m["name"], np.zeros(tuple(m.get("shape", (2,))), dtype="i4"),
+                                      dims=tuple(m.get("dims", ())), attributes=copy.deepcopy(m["attrs"]))
         return g
     if k == "q":
         q = P.SequenceType(name, attributes=attrs)
@@ -226,7 +231,7 @@ NAMECH = string.ascii_letters + string.digits + "_"
 STRCH = string.ascii_letters + string.digits + "  ;,{}:=.#'()[]/<>-_+*!?@$%^&|~`"
 VAR_POOL = ["a", "b", "c", "s", "t", "g", "q", "x", "y", "lat", "time", "T_2m", "v1"]
 ATTR_POOL = ["units", "long_name", "_FillValue", "valid_range", "scale-factor", "a", "b", "x", "y", "k", "n", "title",
-             "history", "s", "t", "arr", "Unlimited_Dimension"]
+             "history", "s", "t", "arr", "Unlimited_Dimension", "String", "Attributes", "Float64", "Alias"]
 STR_EDGE = ["", " ", ";", ",", "{", "}", "a;b,c", " lead", "trail ", "nan", "1", "Attributes {", "x {", "ab", "} ;",
             "a, b; c {d} ", "String s", "1.0", "'", "it's", "#c", "inf", "-", ".", "a  b", ";;", ",;", "{ }"]
 FLOAT_EDGE = [0.0, 1.0, -1.0, 2.0, 1.5, -2.5, 100000.0, 999999.0, 1e6, 1e22, -1e10, 123456.0, 0.1, 1e-7, 1.23456789,
@@ -296,27 +301,91 @@ def gen_attrs(rng, nmax, short, avoid=(), collide=()):
     return out
 
 
-def gen_var(rng, depth, used, mode):
-    """mode: set of {"short", "collide"} features allowed in this dataset"""
-    name = gen_name(rng, VAR_POOL, used)
+KEYWORD_NAMES = ["Attributes", "attributes", "String", "Float64", "Int32", "Url", "Byte", "Grid", "Structure", "Sequence",
+                 "Dataset", "Array", "Maps", "Alias", "global"]
+BASE_SHAPES = [(2,), (2,), (), (0,), (3, 2), (1, 0, 2)]
+
+
+def gen_var_name(rng, used, anc):
+    """variable names: also the name of an enclosing container / of the dataset, and words of the DAS/DDS grammar"""
+    r = rng.random()
+    if anc and r < 0.08 and rng.choice(anc) not in used:
+        n = next(a for a in rng.sample(list(anc), len(anc)) if a not in used)
+        used.add(n)
+        return n
+    if r < 0.14:
+        return gen_name(rng, KEYWORD_NAMES, used)
+    return gen_name(rng, VAR_POOL, used)
+
+
+def gen_base_shape(rng):
+    shape = rng.choice(BASE_SHAPES)
+    dims = rng.choice([(), tuple("d%d" % i for i in range(len(shape))), tuple(rng.choice(VAR_POOL) for _ in shape)])
+    return {"shape": list(shape), "dims": list(dims)}
+
+
+def gen_grid_members(rng, inner, anc):
+    """array + maps in the order the Grid holds them: maps in dimension order, reversed or shuffled, maps that are no
+    dimension of the array (also first), dimensions without a map, anonymous and repeated dimension names, no maps"""
+    rank = rng.choice([0, 1, 2, 2, 3])
+    ext = [rng.choice([2, 2, 3, 1, 0]) for _ in range(rank)]
+    r = rng.random()
+    if r < 0.15:
+        dims = []
+    else:
+        dims = []
+        while len(dims) < rank:
+            d = gen_name(rng, VAR_POOL, inner)
+            dims.append(d)
+        if r < 0.28 and rank >= 2:
+            dims[1] = dims[0]
+    axes = []
+    for i in range(rank):
+        dn = dims[i] if dims else gen_name(rng, VAR_POOL, inner)
+        if dn not in [a for a, _ in axes]:
+            axes.append((dn, ext[i]))
+    r = rng.random()
+    if r < 0.3:
+        pass
+    elif r < 0.45:
+        axes.reverse()
+    else:
+        rng.shuffle(axes)
+    if axes and rng.random() < 0.15:
+        del axes[rng.randrange(len(axes))]
+    if rng.random() < 0.3:
+        for _ in range(rng.randint(1, 2)):
+            axes.insert(0 if rng.random() < 0.5 else rng.randint(0, len(axes)),
+                        (gen_var_name(rng, inner, anc), rng.choice([2, 0, 5])))
+    arr = {"kind": "b", "name": gen_var_name(rng, inner, anc), "attrs": gen_attrs(rng, 2, False), "children": [],
+           "shape": ext, "dims": dims}
+    maps = [{"kind": "b", "name": a, "attrs": gen_attrs(rng, 2, False), "children": [], "shape": [e],
+             "dims": rng.choice([[a], [], ["n"]])} for a, e in axes]
+    return [arr] + maps
+
+
+def gen_var(rng, depth, used, mode, anc=()):
+    """mode: set of {"short", "collide"} features allowed in this dataset; anc: names of the enclosing containers"""
+    name = gen_var_name(rng, used, anc)
     r = rng.random()
     short = "short" in mode
     if r < 0.45 or depth >= 3:
-        return {"kind": "b", "name": name, "attrs": gen_attrs(rng, 4, short), "children": []}
+        out = {"kind": "b", "name": name, "attrs": gen_attrs(rng, 4, short), "children": []}
+        out.update(gen_base_shape(rng))
+        return out
     inner = set()
     if r < 0.6:
-        ms = [{"kind": "b", "name": gen_name(rng, VAR_POOL, inner), "attrs": gen_attrs(rng, 2, False), "children": []}
-              for _ in range(rng.randint(2, 3))]
+        ms = gen_grid_members(rng, inner, anc + (name,))
         names = [m["name"] for m in ms]
         return {"kind": "g", "name": name, "children": ms,
                 "attrs": gen_attrs(rng, 3, short, avoid=() if "collide" in mode else names,
                                    collide=names if "collide" in mode else ())}
     if r < 0.75:
-        cs = [{"kind": "b", "name": gen_name(rng, VAR_POOL, inner), "attrs": gen_attrs(rng, 3, short), "children": []}
-              for _ in range(rng.randint(1, 3))]
+        cs = [{"kind": "b", "name": gen_var_name(rng, inner, anc + (name,)), "attrs": gen_attrs(rng, 3, short),
+               "children": []} for _ in range(rng.randint(1, 3))]
         kind = "q"
     else:
-        cs = [gen_var(rng, depth + 1, inner, mode) for _ in range(rng.randint(0, 3))]
+        cs = [gen_var(rng, depth + 1, inner, mode, anc + (name,)) for _ in range(rng.randint(0, 3))]
         kind = "s"
     names = [c["name"] for c in cs]
     return {"kind": kind, "name": name, "children": cs,
@@ -325,10 +394,11 @@ def gen_var(rng, depth, used, mode):
 
 
 def gen_dataset(rng, mode=frozenset(), small=False):
+    # the dataset's name is drawn first: a variable (at any depth) may be named like the dataset
+    dsname = gen_name(rng, ["d", "data", "nameless", "test_1", "a", "s", "Attributes"], set())
     used = set()
-    cs = [gen_var(rng, 0 if not small else 2, used, mode) for _ in range(rng.randint(0, 2 if small else 4))]
+    cs = [gen_var(rng, 0 if not small else 2, used, mode, (dsname,)) for _ in range(rng.randint(0, 2 if small else 4))]
     names = [c["name"] for c in cs]
-    dsname = gen_name(rng, ["d", "data", "nameless", "test_1"], set(names))
     avoid = set(names) | {dsname}
     attrs = gen_attrs(rng, 2 if small else 4, "short" in mode, avoid=() if "collide" in mode else avoid,
                       collide=(names + [dsname]) if "collide" in mode else ())
@@ -337,6 +407,44 @@ def gen_dataset(rng, mode=frozenset(), small=False):
             sub = gen_attrs(rng, 3, "short" in mode)
             attrs[g] = {k: v for k, v in sub.items()}
     return {"name": dsname, "attrs": attrs, "children": cs}
+
+
+def features(spec):
+    """measured distribution: what is unconventional about a dataset"""
+    out = set()
+
+    def walk_(node, anc):
+        for c in node["children"]:
+            if c["name"] in anc:
+                out.add("var-named-like-ancestor" if c["name"] != spec["name"] else "var-named-like-dataset")
+            if c["name"] in KEYWORD_NAMES:
+                out.add("var-named-like-keyword")
+            if c["kind"] == "g":
+                arr, maps = c["children"][0], c["children"][1:]
+                dims = list(arr.get("dims", [m["name"] for m in maps]))
+                pos = [dims.index(m["name"]) if m["name"] in dims else len(dims) for m in maps]
+                if pos != sorted(pos):
+                    out.add("grid:maps-not-in-dimension-order")
+                if dims and len(dims) in pos:
+                    out.add("grid:map-not-a-dimension")
+                if not maps:
+                    out.add("grid:no-maps")
+                if not dims:
+                    out.add("grid:anonymous-dims")
+                if len(set(dims)) < len(dims):
+                    out.add("grid:repeated-dims")
+                if any(m["attrs"] for m in c["children"]):
+                    out.add("grid:member-attributes(not judged)")
+            if c["kind"] in "sq" and not c["children"]:
+                out.add("empty-structure")
+            if c["kind"] == "b" and 0 in c.get("shape", ()):
+                out.add("zero-extent")
+            walk_(c, anc + (c["name"],))
+    walk_(spec, (spec["name"],))
+    for k in spec["attrs"]:
+        if k in KEYWORD_NAMES:
+            out.add("attribute-named-like-keyword")
+    return out
 
 
 # ------------------------------------------------------------------------------------------------ oracle
@@ -873,7 +981,8 @@ MALFORMED = ["", "Attributes", "Attributes {", "Attributes { a { }", "Attributes
              "Attributes { x{ Int32 y 1; } }", "Attributes { x {Int32 y 1;} }", "Attributes {}", "attributes{}",
              "Attributes { Int32 x 1;;}", "Attributes { Int32 x 1; Int32 x 2; }", "Attributes { x { } x { Int32 a 1; } }",
              "Attributes { Float64 x nan, NaN., -nan, inf, -inf., Inf.; }", "Attributes { Float64 x nan.0; }",
-             "Attributes { String x \"\", \"a\", \"\"; }", "Attributes { String x \"\"\"; }", "Attributes { Int32 x 1\n; }"]
+             "Attributes { String x \"\", \"a\", \"\"; }", "Attributes { String x \"\"\"; }", "Attributes { Int32 x 1\n; }",
+             "Attributes { Int32 x 000, +00000, -0, 00; }", "Attributes { Int32 x 0010; }", "Attributes { Float64 x 007.5, 00e1; }"]
 
 
 # ------------------------------------------------------------------------------------------------ run
@@ -881,7 +990,9 @@ def run(ctx):
     ctx.rule = ("seeded random datasets over the property's quantifier (names over [A-Za-z0-9_-]; strings over printable "
                 "ASCII without double quote and backslash incl. the edge strings; ints of up to 6 digits; floats incl. "
                 "integral, tiny, huge, NaN, +-inf; homogeneous lists; dicts to depth 3; Base, Grid, Structure (nested to "
-                "depth 3), Sequence; NC_GLOBAL/DODS_EXTRA) served through BaseHandler and opened with open_url, plus "
+                "depth 3), Sequence; Grids with maps in any stored order, non-dimension maps, no maps, repeated/anonymous "
+                "dimension names; zero extents; variables named like an enclosing container, the dataset or a grammar "
+                "word; NC_GLOBAL/DODS_EXTRA) served through BaseHandler and opened with open_url, plus "
                 "separate streams with lists shorter than 2, with attributes named like a child / the dataset, foreign "
                 "flat and nested DAS texts (Python printer), foreign-layout texts printed by the Lean specification printer "
                 "(das-fprint), and malformed texts; a case is non-trivial when the dataset carries at least "
@@ -919,6 +1030,8 @@ def served_case(ctx, P, spec, stream, pr, pa, at, rt, do_shrink=True):
     nattr = len(spec["attrs"]) + sum(len(n["attrs"]) for _, n, e in spec_nodes(spec) if not e)
     ctx.count(line, nattr > 0, tag="%s:%s" % (stream, tag_of(spec)),
               sample={"stream": stream, "dataset": spec} if nattr and len(line) < 700 else None)
+    for f in sorted(features(spec)):
+        ctx.tags["feature:%s" % f] += 1
     meta = {"stream": stream, "spec": spec}
     # printer
     try:
